@@ -3,3 +3,4 @@ import FlVerif.Props.C04
 import FlVerif.Props.C05
 import FlVerif.Props.C17
 import FlVerif.Props.C06
+import FlVerif.Props.C16
